@@ -611,3 +611,11 @@ func Q(b []byte) string {
 	}
 	return strconv.Quote(string(b))
 }
+
+// PickInts returns q in the quick tier and t in the thorough tier.
+func (r *Run) PickInts(q, t []int) []int {
+	if r.Quick() {
+		return q
+	}
+	return t
+}
